@@ -61,7 +61,7 @@ def run_c26(v):
     mc = _mc_ffibuf(v)
     trace = lib.outpath(v.prop, "ffi.ndjson")
     args = ["ffi", "--seed", v.seed, "--out", trace,
-            "--cases", 18 if quick else 150,
+            "--cases", 24 if quick else 120,
             "--margin", 16 if quick else 40,
             "--max-caps", 500 if quick else 100000,
             "--modes", "canary,guard_end" if quick else "canary,guard_end,guard_start"]
@@ -127,7 +127,7 @@ def build_cli():
 
 def _mc_frontends(v):
     quick = v.tier == "quick"
-    ops = 4 if quick else 7
+    ops = 4 if quick else 5
     ids = '{"a", " a"}' if quick else '{"a", " a", "b"}'
     cfg = lib.write_cfg("MC_Frontends_ideal.cfg", MCF_CFG.format(
         ids=ids, ops=ops, variant="ideal", print="FALSE", rej="TRUE", tail=MCF_INVS))
